@@ -325,11 +325,16 @@ where
         key_package: Option<&KeyPackage>,
     ) -> Result<(), Error> {
         let require = |pred: fn(&Self, &Tag) -> bool, name: &str| {
-            event
-                .tags
-                .iter()
-                .find(|t| pred(self, t))
-                .ok_or_else(|| Error::KeyPackage(format!("Missing required tag: {}", name)))
+            let mut found = event.tags.iter().filter(|t| pred(self, t));
+            let first = found
+                .next()
+                .ok_or_else(|| Error::KeyPackage(format!("Missing required tag: {}", name)))?;
+            // SECURITY: only the first tag of a kind is validated below. A second one (possibly
+            // contradicting it) would make the event read differently by different clients: refuse it.
+            if found.next().is_some() {
+                return Err(Error::KeyPackage(format!("Duplicate tag: {}", name)));
+            }
+            Ok(first)
         };
 
         let pv = require(Self::is_protocol_version_tag, "mls_protocol_version")?;
